@@ -154,9 +154,41 @@ func (it *Interp) opEmit(op *Op) {
 		it.evAt = it.M.Ents
 		it.emit(Emission{Ev: ev, Ent: op.E, New: m, Chg: cm, Kind: 2})
 	}
-	it.run(op, valid, func(b *Backend) {
+	if valid {
+		it.run(op, true, func(b *Backend) {
+			b.W.Event(b.evT[ev]).For(compsOf(op.Comps)...).Emit(b.handle(op.E))
+		})
+		return
+	}
+	// invalid arguments are rejected only where an observer of the type is registered; a backend that runs with fewer
+	// observers than the model (policy DropObsOdd) may take the fast path instead
+	full, fast := []*Backend{}, []*Backend{}
+	for _, b := range it.B {
+		has := false
+		for j, o := range it.M.Obs {
+			if o.Registered && o.Ev == ev && j < len(b.obsOn) && b.obsOn[j] {
+				has = true
+			}
+		}
+		if has {
+			full = append(full, b)
+		} else {
+			fast = append(fast, b)
+		}
+	}
+	all := it.B
+	it.B = full
+	it.run(op, false, func(b *Backend) {
 		b.W.Event(b.evT[ev]).For(compsOf(op.Comps)...).Emit(b.handle(op.E))
 	})
+	it.B = fast
+	for _, b := range fast {
+		if p := try(func() { b.W.Event(b.evT[ev]).For(compsOf(op.Comps)...).Emit(b.handle(op.E)) }); p != nil {
+			it.B = all
+			fail("panic|emit|fast-path", "%s step %d: Emit without a registered observer of the type panicked: %v", b.Name, it.Step, p)
+		}
+	}
+	it.B = all
 }
 
 // onEvent is the body of every observer callback.
